@@ -421,10 +421,20 @@ def replay_side(pid, side, path, seed):
     with open(path) as f:
         rep = json.load(f)
     d = rep["case"]["case"]
+    if "endpoint" in d:
+        # a scripted response through a generated / macro client (rpc document)
+        obs = vc.ndjson(vc.harness("vgen", ["rpc"], stdin=json.dumps(d) + "\n"))[0]
+        print(json.dumps(obs)[:600])
+        prop = rep["case"]["prop"]
+        err = obs.get("client", {}).get("err")
+        bad = "panic" in obs or (err is None and set(prop) == {"error"}) or (err is not None and "error" not in prop)
+        print("replay: property %s" % ("VIOLATED" if bad else "holds"))
+        return 1 if bad else 0
     obs = vc.ndjson(vc.harness("vh", ["body"], stdin=json.dumps(d) + "\n"))[0]
     print(json.dumps(obs))
     out = vc.Outcome(pid, "quick", seed, "model_checking")
-    cc = {"h": d["h"], "par": d["par"], "prop": rep["case"]["prop"], "enc": d.get("enc")}
+    prop = rep["case"].get("prop") or py_mech_prop({"side": side, "h": d["h"], "par": d["par"]})
+    cc = {"h": d["h"], "par": d["par"], "prop": prop, "enc": d.get("enc")}
     bad = judge_server(cc, obs, out, {}) if side == "server" else judge_client(cc, obs, out, {})
     print("replay: property %s" % ("VIOLATED" if bad else "holds"))
     return 1 if bad else 0
